@@ -178,6 +178,33 @@ fn check_occ(bw: &[u8], syms: &[u8], k: u32, cc: &mut CaseCtx) {
     }
 }
 
+/// every possible largest symbol: texts M M s over the alphabet {s, M} for every byte M > s,
+/// sentinel s in {0x00, '$'} — table sizes and the '$'-row special case of Occ::new depend on the
+/// largest symbol, not on the text
+fn maxsym_unit(ctx: &mut Ctx) {
+    for s in [0u8, b'$'] {
+        for m in (s as usize + 1)..=255 {
+            let m = m as u8;
+            for text in [vec![m, m, s], vec![m, s, m, s]] {
+                for k in [1u32, 3] {
+                    ctx.case(
+                        || json!({"kind": "occ-maxsym", "text": show(&text), "k": k}),
+                        |cc| {
+                            let sa = ti::naive_sa(&text, Pi::Desc);
+                            let bw = ti::bwt_def(&text, &sa);
+                            let mut syms = text.clone();
+                            syms.sort();
+                            syms.dedup();
+                            check_occ(&bw, &syms, k, cc);
+                            cc.set_nontrivial(true);
+                        },
+                    );
+                }
+            }
+        }
+    }
+}
+
 fn occ_desc(text: &[u8], pi: Pi, variant: usize, k: u32) -> Value {
     json!({"kind": "occ", "text": show(text), "pi": pi.name(), "alphabet_variant": variant, "k": k})
 }
@@ -472,6 +499,7 @@ impl Prop for C04Prop {
         v.extend((0..LOOKAHEAD_SHARDS).map(|i| format!("lookahead-{}", i)));
         v.extend((0..FAMILY_SHARDS).map(|i| format!("families-{}", i)));
         v.extend((0..SCAN_SHARDS).map(|i| format!("scan-{}", i)));
+        v.push("occ-max-symbol".into());
         v
     }
     fn run_unit(&self, tier: Tier, unit: usize, ctx: &mut Ctx) {
@@ -481,8 +509,10 @@ impl Prop for C04Prop {
             lookahead_unit(tier, unit - SWEEP_SHARDS, ctx)
         } else if unit < SWEEP_SHARDS + LOOKAHEAD_SHARDS + FAMILY_SHARDS {
             family_unit(tier, unit - SWEEP_SHARDS - LOOKAHEAD_SHARDS, ctx)
-        } else {
+        } else if unit < SWEEP_SHARDS + LOOKAHEAD_SHARDS + FAMILY_SHARDS + SCAN_SHARDS {
             scan_unit(tier, unit - SWEEP_SHARDS - LOOKAHEAD_SHARDS - FAMILY_SHARDS, ctx)
+        } else {
+            maxsym_unit(ctx)
         }
     }
     fn death_key(&self, case: &Value, how: &str) -> String {
@@ -501,6 +531,15 @@ impl Prop for C04Prop {
         let pi = Pi::parse(case["pi"].as_str().unwrap_or("desc"));
         match case["kind"].as_str().unwrap_or("") {
             "tables" => ctx.case(|| case.clone(), |cc| check_tables(&text, pi, cc)),
+            "occ-maxsym" => {
+                let k = case["k"].as_u64().unwrap_or(1) as u32;
+                let sa = ti::naive_sa(&text, Pi::Desc);
+                let bw = ti::bwt_def(&text, &sa);
+                let mut syms = text.clone();
+                syms.sort();
+                syms.dedup();
+                ctx.case(|| case.clone(), |cc| check_occ(&bw, &syms, k, cc));
+            }
             "occ" => {
                 let v = case["alphabet_variant"].as_u64().unwrap_or(0) as usize;
                 let k = case["k"].as_u64().unwrap_or(1) as u32;
